@@ -54,6 +54,7 @@ def h_pdu(ctx, kind, cfg, var, twin=False):
     decoded_object_owns_its_data(ctx, b.cls.unpack, b.ref, lambda x: sym_and(b.check(x), x == pdu, x.pack() == raw))
     if twin:
         ctx.holds("twin", raw != ref)
+    built_pdu_is_isolated_from_config(ctx, b.conf, cfg, pdu.pack, ref)
 
 
 h_pdu.must_reach = ["pack == reference layout", "unpack == original", "repack identical"]
